@@ -364,6 +364,14 @@ def correspondence(ctx):
     lines = []
     jobs = []
 
+    # ---------------- corpus of minimised past failures, first
+    for it, c in _corpus():
+        if it == 'trace':
+            ctx.case('corpus', c, tag='trace')
+            bad, _ = eval_case(c)
+            for b in bad[:1]:
+                ctx.pred_fail('trace', c, b)
+
     # ---------------- full traces
     for idx in range(npres):
         pr = gen_prescription(rng, idx)
@@ -590,9 +598,24 @@ def eval_case(case):
     return check_physics(specs, mats, ph, sh, case.get('n0', 1.0)), (ph, sh)
 
 
+def _corpus():
+    """minimised past failures (corpus/C19/*.json), always tried first"""
+    import glob
+    import json
+    import os
+    out = []
+    for f in sorted(glob.glob(os.path.join(C.VERIF, 'corpus', 'C19', '*.json'))):
+        try:
+            o = json.load(open(f))
+            out.append((o['item'], o['input']))
+        except Exception:
+            pass
+    return out
+
+
 def search(ctx, hints):
     """small scope first: one conic surface at the origin, simplest rays; then the failing correspondence cases"""
-    cands = []
+    cands = [c for (it, c) in _corpus() if it == 'trace']
     for kind in ('refl', 'refr'):
         for sh in (('conic', -0.01, -1.0), ('sphere', 0.02), ('plane',), ('offaxis', -0.01, -1.0, 0.0, 20.0), ('offaxis', -0.01, 0.0, 15.0, 0.0)):
             for (p, s) in (([0.0, 0.0, -10.0], [0.0, 0.0, 1.0]), ([5.0, 0.0, -10.0], [0.0, 0.0, 1.0]),
@@ -713,7 +736,9 @@ MANIFEST_ENTRY = {
              'rigid motions when R^T R = I, and make_rotation_matrix is orthogonal for all angles; the conic sag satisfies the '
              'conic equation and (-Fx,-Fy,1) is parallel to the gradient of the implicit equation (true normal), also for the '
              'off-axis conic closure; the polar->Cartesian gradient never divides by zero and equals the Cartesian gradient at '
-             'every point, the vertex included; intersect starts on the vertex plane; Newton post-condition |F| < eps|F\'| when '
+             'every point, the vertex included; over the reals conic_sag_der is the derivative (HasDerivAt) of conic_sag; the public '
+             'polar off-axis functions equal the parent conic at shifted coordinates and their (d/dr, d/dt) are the chain-rule images '
+             'of its Cartesian gradient; intersect starts on the vertex plane; Newton post-condition |F| < eps|F\'| when '
              'the loop stops.  All of these are stated over definitions regenerated from the current source each run.  '
              'Modelled-and-compared only: the whole trace (Newton iteration, per-ray convergence masking, multi-surface '
              'threading of the index), on seeded prescriptions with an independent oracle.'),
